@@ -1090,7 +1090,11 @@ PROPS = {
                 text="Fault index as a symbolic variable: the j-th write/flush of the sink (real compress_and_write_block; real Writer::insert/into_inner over "
                      "abstract block writers) and the k-th seek/load of the source (real cursor glue) fail: the call in progress returns Err carrying the "
                      "failure, earlier calls are unaffected, never Ok for the faulted call, no Err without a fault, no panic; convert_merge_error kernel.",
-                note="Merge-function, chunk-creator and sorter-level faults are outside (sorter/merger pipelines over real chunks are not encodable); see not_applicable notes in DESIGN.md."),
+                note="Sorter facet (added): the MIR->SMT engine decides failure PROPAGATION in Sorter::{insert, write_chunk, merge_chunks, write_into_stream_writer, "
+                     "into_stream_merger_iter, into_reader_cursors, extract_reader_cursors_and_merger} on all paths (counter abstraction): every Result of a callee is examined by `?` or returned, "
+                     "never unwrapped or dropped on an Ok path, no panic reachable, convert_merge_error only on error types that cannot carry a merge error. Fault INJECTION into the k-th "
+                     "call of real merge functions / chunk creators through whole sorter runs, MergerIter::next and closures passed to iterator adaptors stay outside.",
+                quick_cmd="./check_C12.sh quick", thorough_cmd="./check_C12.sh thorough"),
     "C06": dict(claimed=True, design="§5 C06",
                 text="Only the heap order is decided: Ord/PartialOrd/Eq of the merger's heap entries over three sources positioned on symbolic keys with symbolic "
                      "source indices is exactly the reverse lexicographic order on (key, source index) - the mechanism that makes equal keys pop, and their "
@@ -1168,8 +1172,8 @@ def manifest():
             continue
         c = {
             "property_id": pid,
-            "quick_cmd": "./%s check %s --tier quick" % ("ms" if p.get("engine") == "mirsmt" else "vk", pid),
-            "thorough_cmd": "./%s check %s --tier thorough" % ("ms" if p.get("engine") == "mirsmt" else "vk", pid),
+            "quick_cmd": p.get("quick_cmd") or "./%s check %s --tier quick" % ("ms" if p.get("engine") == "mirsmt" else "vk", pid),
+            "thorough_cmd": p.get("thorough_cmd") or "./%s check %s --tier thorough" % ("ms" if p.get("engine") == "mirsmt" else "vk", pid),
             "evidence_file": "/verif/evidence/%s.json" % pid,
             "replay_cmd_template": "cat {path}",
             "engine": p.get("engine", "kani"),
@@ -1191,7 +1195,7 @@ def manifest():
         },
         "engines": [{"name": "kani", "path": "/verif/vk", "serves_properties": [c["property_id"] for c in checks if c["engine"] == "kani"],
                      "kind_free_text": "Kani 0.68 / CBMC 6.11 / CaDiCaL bounded model checking of grenad's compiled MIR through in-crate harness modules"},
-                    {"name": "mirsmt", "path": "/verif/ms", "serves_properties": [c["property_id"] for c in checks if c["engine"] == "mirsmt"],
+                    {"name": "mirsmt", "path": "/verif/ms", "serves_properties": sorted([c["property_id"] for c in checks if c["engine"] == "mirsmt"] + ["C12"]),
                      "kind_free_text": "symbolic execution of rustc's MIR dump of the sorter module (regenerated from /repo on every run) into 64-bit bit-vector SMT queries; "
                                        "z3 5.1 with cvc5 1.0.3 (--solve-bv-as-int=sum) for the queries bit-blasting does not decide"}],
         "checks": checks,
